@@ -1,37 +1,303 @@
 package main
 
-// Channels (FIFO queues), goroutine statements, and placeholders for schedule / crash modes.
+// Channels (FIFO queues), goroutines as cooperatively scheduled logical threads, mutexes and wait groups.
+//
+// Default ("pipeline") mode: a goroutine runs until it blocks or ends; the scheduler then hands control to the
+// next runnable one (deterministic round robin).  Schedule-exploration mode (vh.Schedule(k)): additionally, before
+// every synchronisation operation the running goroutine may be preempted; which goroutine runs next is a choice the
+// exploration enumerates, with at most k preemptions per path (context-switch bound).  Sequential consistency is
+// assumed.
 
 import (
+	"go/token"
+
 	"golang.org/x/tools/go/ssa"
 )
 
 type crashState struct{}
 
-type schedState struct{}
+type threadKill struct{}
 
-func registerModelIntrinsics(m map[string]intrinsicFn) {}
+type thread struct {
+	id      int
+	body    func()
+	resume  chan bool
+	state   int // 0 new, 1 running/runnable, 2 blocked, 3 done
+	cond    func() bool
+	started bool
+	// saved interpreter context
+	stack     []*ssa.Function
+	callDepth int
+	tryDepth  int
+	curPanic  *goPanic
+	lastPos   token.Pos
+}
 
-func (in *Interp) schedSync(name string, args []Value) Value { return TupleV{} }
-func (in *Interp) schedNotify()                               {}
+type schedState struct {
+	threads     []*thread
+	cur         *thread
+	explore     bool
+	preemptLeft int
+	pending     interface{} // panic value raised in a non-main thread, re-raised in main
+	mutexes     map[*Node]int // 0 free, -1 write-locked, n>0 readers
+	wgs         map[*Node]int
+	deadlock    bool
+}
+
+func registerModelIntrinsics(m map[string]intrinsicFn) {
+	m[vhPath+"Schedule"] = func(in *Interp, fn *ssa.Function, args []Value) Value {
+		s := in.scheduler()
+		s.explore = true
+		s.preemptLeft = in.concInt(args[0], "Schedule bound")
+		return TupleV{}
+	}
+	m[vhPath+"Quiesce"] = func(in *Interp, fn *ssa.Function, args []Value) Value {
+		// let every other goroutine run until it ends or blocks for good
+		s := in.scheduler()
+		in.blockUntil(func() bool {
+			for _, t := range s.threads {
+				if t != s.cur && t.state != 3 && (t.state != 2 || t.cond()) {
+					return false
+				}
+			}
+			return true
+		})
+		return TupleV{}
+	}
+}
+
+func (in *Interp) scheduler() *schedState {
+	if in.sched == nil {
+		main := &thread{id: 0, resume: make(chan bool), state: 1, started: true}
+		in.sched = &schedState{threads: []*thread{main}, cur: main, mutexes: map[*Node]int{}, wgs: map[*Node]int{}}
+	}
+	return in.sched
+}
+
+func (in *Interp) saveCtx(t *thread) {
+	t.stack, t.callDepth, t.tryDepth, t.curPanic, t.lastPos = in.stack, in.callDepth, in.tryDepth, in.curPanic, in.lastPos
+}
+
+func (in *Interp) loadCtx(t *thread) {
+	in.stack, in.callDepth, in.tryDepth, in.curPanic, in.lastPos = t.stack, t.callDepth, t.tryDepth, t.curPanic, t.lastPos
+}
+
+// runnable lists threads that can make progress now (excluding the given one).
+func (s *schedState) runnable(except *thread) []*thread {
+	var out []*thread
+	for _, t := range s.threads {
+		if t == except || t.state == 3 {
+			continue
+		}
+		if t.state == 2 && !t.cond() {
+			continue
+		}
+		out = append(out, t)
+	}
+	return out
+}
+
+// switchTo hands the baton to next and waits until this thread is resumed.
+func (in *Interp) switchTo(next *thread) {
+	s := in.sched
+	cur := s.cur
+	in.saveCtx(cur)
+	s.cur = next
+	in.loadCtx(next)
+	if next.state == 2 {
+		next.state = 1
+	}
+	if !next.started {
+		next.started = true
+		next.state = 1
+		go in.threadMain(next)
+	}
+	next.resume <- true
+	if cur.state == 3 {
+		return // a finished thread just leaves
+	}
+	if ok := <-cur.resume; !ok {
+		panic(threadKill{})
+	}
+	// resumed: context was loaded by whoever switched to us
+	if cur.id == 0 && s.pending != nil {
+		p := s.pending
+		s.pending = nil
+		panic(p)
+	}
+}
+
+func (in *Interp) threadMain(t *thread) {
+	s := in.sched
+	if ok := <-t.resume; !ok {
+		return
+	}
+	defer func() {
+		r := recover()
+		if _, killed := r.(threadKill); killed {
+			return
+		}
+		t.state = 3
+		if r != nil {
+			// propagate to the main thread, which owns the path
+			s.pending = r
+			main := s.threads[0]
+			in.saveCtx(t)
+			s.cur = main
+			in.loadCtx(main)
+			if main.state == 2 {
+				main.state = 1
+			}
+			main.resume <- true
+			return
+		}
+		// normal end: pass control on
+		next := s.runnable(t)
+		if len(next) == 0 {
+			// everyone else is blocked: deadlock seen from main
+			s.deadlock = true
+			main := s.threads[0]
+			in.saveCtx(t)
+			s.cur = main
+			in.loadCtx(main)
+			s.pending = unsupported{"deadlock: all goroutines blocked"}
+			main.resume <- true
+			return
+		}
+		pick := next[0]
+		if s.explore && len(next) > 1 {
+			pick = next[in.choose(len(next))]
+		}
+		in.switchTo(pick)
+	}()
+	t.body()
+}
+
+// blockUntil suspends the current thread until cond holds, running other threads meanwhile.
+func (in *Interp) blockUntil(cond func() bool) {
+	s := in.scheduler()
+	for !cond() {
+		cur := s.cur
+		cur.state, cur.cond = 2, cond
+		next := s.runnable(cur)
+		if len(next) == 0 {
+			cur.state = 1
+			in.unsupportedf("deadlock: all goroutines blocked")
+		}
+		pick := next[0]
+		if s.explore && len(next) > 1 {
+			pick = next[in.choose(len(next))]
+		}
+		in.switchTo(pick)
+		cur.state = 1
+	}
+}
+
+// preemptPoint: in exploration mode, optionally hand control to another runnable thread before a sync operation.
+func (in *Interp) preemptPoint() {
+	s := in.sched
+	if s == nil || !s.explore || s.preemptLeft <= 0 {
+		return
+	}
+	others := s.runnable(s.cur)
+	if len(others) == 0 {
+		return
+	}
+	k := in.choose(len(others) + 1)
+	if k == 0 {
+		return
+	}
+	s.preemptLeft--
+	in.switchTo(others[k-1])
+}
+
+// killThreads terminates every parked goroutine at the end of a path.
+func (in *Interp) killThreads() {
+	s := in.sched
+	if s == nil {
+		return
+	}
+	for _, t := range s.threads[1:] {
+		if t.started && t.state != 3 && t != s.cur {
+			t.state = 3
+			t.resume <- false
+		}
+	}
+}
 
 func (in *Interp) goStmt(fr *Frame, x *ssa.Go) {
-	// Sequential approximation is only sound for bodies the harness opts into.
-	if !in.goInline {
-		in.unsupportedf("go statement (no schedule mode for this harness)")
+	if in.pristineMode {
+		return // goroutines started by package initialisers (monitors, tickers) are not modelled
 	}
 	fn, args := in.prepareCall(fr, &x.Call)
-	in.invokeFuncV(fn, args)
+	if in.goInline {
+		in.invokeFuncV(fn, args)
+		return
+	}
+	s := in.scheduler()
+	t := &thread{id: len(s.threads), resume: make(chan bool), state: 0}
+	t.body = func() { in.invokeFuncV(fn, args) }
+	s.threads = append(s.threads, t)
+	in.preemptPoint()
+}
+
+func (in *Interp) schedNotify() {}
+
+// schedSync models sync.Mutex / RWMutex / WaitGroup.
+func (in *Interp) schedSync(name string, args []Value) Value {
+	s := in.scheduler()
+	p, _ := args[0].(PtrV)
+	key := p.N
+	in.preemptPoint()
+	switch {
+	case name == "(*sync.Mutex).Lock" || name == "(*sync.RWMutex).Lock":
+		in.blockUntil(func() bool { return s.mutexes[key] == 0 })
+		s.mutexes[key] = -1
+	case name == "(*sync.RWMutex).RLock":
+		in.blockUntil(func() bool { return s.mutexes[key] >= 0 })
+		s.mutexes[key]++
+	case name == "(*sync.Mutex).Unlock" || name == "(*sync.RWMutex).Unlock":
+		if s.mutexes[key] != -1 {
+			in.obligation(in.tb.Bool(false), "sync: unlock of unlocked mutex")
+			panic(abortPath{"unlock"})
+		}
+		s.mutexes[key] = 0
+	case name == "(*sync.RWMutex).RUnlock":
+		if s.mutexes[key] <= 0 {
+			in.obligation(in.tb.Bool(false), "sync: RUnlock of unlocked RWMutex")
+			panic(abortPath{"runlock"})
+		}
+		s.mutexes[key]--
+	case name == "(*sync.WaitGroup).Add":
+		s.wgs[key] += in.concInt(args[1], "WaitGroup.Add")
+		if s.wgs[key] < 0 {
+			in.obligation(in.tb.Bool(false), "sync: negative WaitGroup counter")
+			panic(abortPath{"wg"})
+		}
+	case name == "(*sync.WaitGroup).Done":
+		s.wgs[key]--
+		if s.wgs[key] < 0 {
+			in.obligation(in.tb.Bool(false), "sync: negative WaitGroup counter")
+			panic(abortPath{"wg"})
+		}
+	case name == "(*sync.WaitGroup).Wait":
+		in.blockUntil(func() bool { return s.wgs[key] == 0 })
+	}
+	return TupleV{}
 }
 
 func (in *Interp) chanSend(ch *ChanObj, v Value) {
 	if ch == nil {
 		in.unsupportedf("send on nil channel (blocks forever)")
 	}
+	if in.sched != nil {
+		in.preemptPoint()
+	}
 	if ch.Closed {
 		in.obligation(in.tb.Bool(false), "send on closed channel")
 		panic(abortPath{"send on closed"})
 	}
+	// sends never block in this model (unbounded queue); receivers see values in send order
 	ch.Q = append(ch.Q, v)
 }
 
@@ -39,16 +305,23 @@ func (in *Interp) chanRecv(ch *ChanObj, commaOk bool) Value {
 	if ch == nil {
 		in.unsupportedf("receive from nil channel (blocks forever)")
 	}
+	if in.sched != nil {
+		in.preemptPoint()
+	}
+	if len(ch.Q) == 0 && !ch.Closed {
+		if in.goInline && in.sched == nil {
+			in.unsupportedf("receive from empty open channel (would block)")
+		}
+		in.blockUntil(func() bool { return len(ch.Q) > 0 || ch.Closed })
+	}
 	var v Value
 	ok := true
 	if len(ch.Q) > 0 {
 		v = ch.Q[0]
 		ch.Q = ch.Q[1:]
-	} else if ch.Closed {
+	} else {
 		v = in.zero(ch.ET)
 		ok = false
-	} else {
-		in.unsupportedf("receive from empty open channel (would block)")
 	}
 	if commaOk {
 		return TupleV{v, in.tb.Bool(ok)}
@@ -64,44 +337,66 @@ func (in *Interp) selectOp(fr *Frame, x *ssa.Select) Value {
 			nrecv++
 		}
 	}
-	res := make(TupleV, 2+nrecv)
-	res[1] = in.tb.Bool(false)
-	ri := 0
-	for _, st := range x.States {
-		if st.Dir == 2 {
-			ch := in.get(fr, st.Chan).(*ChanObj)
-			if ch != nil {
-				res[2+ri] = in.zero(ch.ET)
+	try := func() (TupleV, bool) {
+		res := make(TupleV, 2+nrecv)
+		res[1] = in.tb.Bool(false)
+		ri := 0
+		for _, st := range x.States {
+			if st.Dir == 2 {
+				ch, _ := in.get(fr, st.Chan).(*ChanObj)
+				if ch != nil {
+					res[2+ri] = in.zero(ch.ET)
+				} else {
+					res[2+ri] = in.tb.Const(64, 0)
+				}
+				ri++
+			}
+		}
+		ri = 0
+		for i, st := range x.States {
+			ch, _ := in.get(fr, st.Chan).(*ChanObj)
+			if st.Dir == 2 {
+				if ch != nil && (len(ch.Q) > 0 || ch.Closed) {
+					r := in.chanRecv(ch, true).(TupleV)
+					res[0] = in.tb.Const(64, uint64(i))
+					res[1] = r[1]
+					res[2+ri] = r[0]
+					return res, true
+				}
+				ri++
 			} else {
-				res[2+ri] = in.tb.Const(64, 0)
-			}
-			ri++
-		}
-	}
-	ri = 0
-	for i, st := range x.States {
-		ch, _ := in.get(fr, st.Chan).(*ChanObj)
-		if st.Dir == 2 {
-			if ch != nil && (len(ch.Q) > 0 || ch.Closed) {
-				r := in.chanRecv(ch, true).(TupleV)
-				res[0] = in.tb.Const(64, uint64(i))
-				res[1] = r[1]
-				res[2+ri] = r[0]
-				return res
-			}
-			ri++
-		} else {
-			if ch != nil && !ch.Closed {
-				in.chanSend(ch, in.get(fr, st.Send))
-				res[0] = in.tb.Const(64, uint64(i))
-				return res
+				if ch != nil && !ch.Closed {
+					in.chanSend(ch, in.get(fr, st.Send))
+					res[0] = in.tb.Const(64, uint64(i))
+					return res, true
+				}
 			}
 		}
+		if !x.Blocking {
+			res[0] = in.tb.Const(64, ^uint64(0))
+			return res, true
+		}
+		return nil, false
 	}
-	if !x.Blocking {
-		res[0] = in.tb.Const(64, ^uint64(0))
+	if res, ok := try(); ok {
 		return res
 	}
-	in.unsupportedf("blocking select with no ready case")
-	return nil
+	ready := func() bool {
+		for _, st := range x.States {
+			ch, _ := in.get(fr, st.Chan).(*ChanObj)
+			if ch == nil {
+				continue
+			}
+			if st.Dir == 2 && (len(ch.Q) > 0 || ch.Closed) {
+				return true
+			}
+			if st.Dir != 2 && !ch.Closed {
+				return true
+			}
+		}
+		return false
+	}
+	in.blockUntil(ready)
+	res, _ := try()
+	return res
 }
